@@ -208,7 +208,8 @@ class SimConnection(Connection):
         self.close_log = []
         if world is None:
             raise RuntimeError("no SimWorld")
-        node = world.nodes.get(self.endpoint.address)
+        # several nodes may sit behind one address, told apart by port: world.nodes[(address, port)] wins
+        node = world.nodes.get((self.endpoint.address, self.endpoint.port)) or world.nodes.get(self.endpoint.address)
         if node is None or not node.accepting:
             # what _connect_socket raises when nothing listens
             raise socket.error(111, "Tried connecting to [(%r, %r)]. Last error: Connection refused"
@@ -255,10 +256,25 @@ class SimConnection(Connection):
 
     # ---- what the reactor's read handler does
     def feed(self, data):
+        """Bytes arrive from the node.  A real reactor's read handler is never re-entered: bytes that arrive while a
+        response callback of THIS connection is still running (the callback sent a request and the simulated node
+        answered at once) are handled after the callback has returned - otherwise process_io_buffer would find the
+        frame it is in the middle of still in its buffer and process it a second time."""
         if self.is_closed or self.is_defunct:
             return False
-        self._iobuf.write(data)
-        self.process_io_buffer()
+        if getattr(self, "_sim_feeding", False):
+            self._sim_backlog.append(bytes(data))
+            return True
+        self._sim_feeding = True
+        self._sim_backlog = []
+        try:
+            self._iobuf.write(data)
+            self.process_io_buffer()
+            while self._sim_backlog and not (self.is_closed or self.is_defunct):
+                self._iobuf.write(self._sim_backlog.pop(0))
+                self.process_io_buffer()
+        finally:
+            self._sim_feeding = False
         return True
 
     def server_closed(self):
@@ -485,7 +501,7 @@ class FakeNode:
             if v2:
                 rows.append([wire.c_inet(pr.get("peer")), wire.c_int(7000), wire.c_text(pr.get("data_center")),
                              wire.c_text(pr.get("rack")), wire.c_uuid(pr.get("host_id")),
-                             wire.c_inet(pr.get("address")), wire.c_int(9042),
+                             wire.c_inet(pr.get("address")), wire.c_int(pr.get("native_port", 9042)),
                              wire.c_text(pr.get("release_version")), wire.c_uuid(pr.get("schema_version")),
                              wire.c_set_text(pr.get("tokens"))])
             else:
